@@ -371,6 +371,10 @@ def obligations(tier, seed):
                     continue
                 obs.append(Obligation("C16/op/%s/n%d/%s" % (cn, n, _opname(op)), partial(ob_history, cn, n, "items", [op]),
                                       bound="%s with %d rows (symbolic offsets/lengths), one operation, all observers" % (cn, n), max_paths=3000, timeout_s=150))
+        if quick:
+            for op in (("append_list", True, 2), ("append_list", False, 2), ("append_item", True), ("sorted", None), ("after", True)):
+                obs.append(Obligation("C16/op/%s/n0/%s" % (cn, _opname(op)), partial(ob_history, cn, 0, "items", [op]),
+                                      bound="%s empty, one operation, all observers" % cn))
         obs.append(Obligation("C16/op/%s/n0/observers" % cn, partial(ob_history, cn, 0, "items", []), bound="%s empty, all observers" % cn))
         obs.append(Obligation("C16/op/%s/n2/build-df" % cn, partial(ob_history, cn, 2, "df", [("sorted", None)]), bound="%s built from a DataFrame" % cn))
         obs.append(Obligation("C16/op/%s/n2/build-dict" % cn, partial(ob_history, cn, 2, "dict", [("after", True)]), bound="%s built by from_dict" % cn))
